@@ -70,6 +70,19 @@ def gen_case(rng, shape_class=None, big=False):
             break
     if m is None:
         m = cand
+    # MPAS-format source (in memory): the mesh as primal cells, or — closed meshes — read as the dual
+    mpas = None
+    if rng.random() < 0.22:
+        mpas = {"mode": "primal", "int_dtype": rng.choice(["int64", "int64", "int32"]),
+                "pad_junk": rng.random() < 0.5, "edges_on_cell": rng.random() < 0.5,
+                "lon_0_2pi": rng.random() < 0.5}
+        if m.closed and rng.random() < 0.5:
+            d = meshgen.dual(m)
+            if len(d.faces) == len(m.nodes) and all(3 <= len(f) <= 8 for f in d.faces) and d.is_manifold():
+                plon, plat = m.lonlat()
+                mpas.update({"mode": "dual", "p_lon": [float(x) for x in plon], "p_lat": [float(x) for x in plat],
+                             "p_faces": [list(f) for f in m.faces]})
+                m = d           # what the Grid must describe: nodes = cells, faces = rings around vertices
     lon, lat = m.lonlat()
     n_face = len(m.faces)
     rank = rng.choice([1, 1, 2, 2, 3])
@@ -114,6 +127,11 @@ def gen_case(rng, shape_class=None, big=False):
         "node_prov": rng.choice(["ll", "ll", "xyz", "xyz", "both"]),
         "radius": rng.choice([1.0, 1.0, 6371.229, 0.37]),
     }
+    if mpas is not None:
+        case["mpas"] = mpas
+        case["conn"] = "mpas_" + mpas["mode"]
+        case["node_prov"] = "ll"
+        case["face_centres"] = "supplied"
     # history on the one Grid object: reads of the two distance tables and data operations in random
     # order, some repeated; every table is read again at the end
     ops = ["end", "efd", "diff", "grad", "gradn"]
@@ -159,7 +177,104 @@ def supplied_connectivity(case):
     return np.array(en, dtype=np.intp), np.array(ef, dtype=np.intp)
 
 
-def build_grid(case):
+def cell_centres(lon, lat, faces):
+    out_lo, out_la = [], []
+    for f in faces:
+        v = [sum(float(unit(lon[i], lat[i])[a]) for i in f) / len(f) for a in range(3)]
+        n = sum(c * c for c in v) ** 0.5
+        v = [c / n for c in v]
+        out_lo.append(float(np.degrees(np.arctan2(v[1], v[0]))))
+        out_la.append(float(np.degrees(np.arcsin(max(-1.0, min(1.0, v[2]))))))
+    return out_lo, out_la
+
+
+def mpas_dataset(case):
+    """an MPAS-format mesh dataset held in memory (1-based tables, 0 = missing, radians)"""
+    import random
+    import xarray as xr
+    mp_ = case["mpas"]
+    r = random.Random(case["conn_seed"])
+    if mp_["mode"] == "dual":
+        plon, plat, pfaces = mp_["p_lon"], mp_["p_lat"], mp_["p_faces"]
+        clon, clat = case["lon"], case["lat"]            # cell centres = the dual's nodes
+        rings = case["faces"]                            # cells around every vertex, cyclic
+    else:
+        plon, plat, pfaces = case["lon"], case["lat"], case["faces"]
+        clon, clat = cell_centres(plon, plat, pfaces)
+        rings = [[] for _ in plon]
+        for ci, f in enumerate(pfaces):
+            for v in f:
+                rings[v].append(ci)
+    it = np.dtype(mp_["int_dtype"])
+    n_cells, n_vert = len(pfaces), len(plon)
+    width = max(len(f) for f in pfaces) + case["width_extra"]
+    voc = np.zeros((n_cells, width), dtype=it)
+    for ci, f in enumerate(pfaces):
+        voc[ci, :len(f)] = np.array(f) + 1
+        if mp_["pad_junk"]:
+            voc[ci, len(f):] = f[-1] + 1                 # MPAS files often repeat the last vertex as padding
+    deg = max(len(x) for x in rings)
+    cov = np.zeros((n_vert, deg), dtype=it)
+    for vi, cs in enumerate(rings):
+        cov[vi, :len(cs)] = np.array(cs) + 1
+    sc = supplied_connectivity({"faces": pfaces, "conn_seed": case["conn_seed"]})
+    en, ef = sc
+    voe = (en + 1).astype(it)
+    coe = np.where(ef == FILL, 0, ef + 1).astype(it)
+    two_pi = lambda a: (a % 360.0) if mp_["lon_0_2pi"] else a
+    ds = xr.Dataset()
+    ds["verticesOnCell"] = xr.DataArray(voc, dims=["nCells", "maxEdges"])
+    ds["nEdgesOnCell"] = xr.DataArray(np.array([len(f) for f in pfaces], dtype=it), dims=["nCells"])
+    ds["cellsOnVertex"] = xr.DataArray(cov, dims=["nVertices", "vertexDegree"])
+    ds["verticesOnEdge"] = xr.DataArray(voe, dims=["nEdges", "TWO"])
+    ds["cellsOnEdge"] = xr.DataArray(coe, dims=["nEdges", "TWO"])
+    ds["lonVertex"] = xr.DataArray(np.deg2rad(two_pi(np.array(plon, float))), dims=["nVertices"])
+    ds["latVertex"] = xr.DataArray(np.deg2rad(np.array(plat, float)), dims=["nVertices"])
+    ds["lonCell"] = xr.DataArray(np.deg2rad(two_pi(np.array(clon, float))), dims=["nCells"])
+    ds["latCell"] = xr.DataArray(np.deg2rad(np.array(clat, float)), dims=["nCells"])
+    if mp_["edges_on_cell"] and mp_["mode"] == "primal":
+        idx = {(min(int(a), int(b)), max(int(a), int(b))): i for i, (a, b) in enumerate(en)}
+        eoc = np.zeros((n_cells, width), dtype=it)
+        for ci, f in enumerate(pfaces):
+            for j in range(len(f)):
+                a, b = f[j], f[(j + 1) % len(f)]
+                eoc[ci, j] = idx[(min(a, b), max(a, b))] + 1
+        ds["edgesOnCell"] = xr.DataArray(eoc, dims=["nCells", "maxEdges"])
+    supplied = {}
+    if case["sup_end"]:
+        supplied["edge_node_distances"] = np.array([r.randrange(1, 1 << 22) / 1024.0 for _ in range(len(en))])
+        ds["dvEdge"] = xr.DataArray(supplied["edge_node_distances"].copy(), dims=["nEdges"])
+    if case["sup_efd"]:
+        supplied["edge_face_distances"] = np.array([r.randrange(1, 1 << 22) / 1024.0 for _ in range(len(en))])
+        ds["dcEdge"] = xr.DataArray(supplied["edge_face_distances"].copy(), dims=["nEdges"])
+    ds.attrs["sphere_radius"] = 1.0
+    return ds, supplied
+
+
+class SourceObject:
+    """ONE source (an xarray.Dataset or a set of arrays) from which a Grid can be built repeatedly"""
+
+    def __init__(self, make, arrays, supplied):
+        self.make, self.arrays, self.supplied = make, arrays, supplied
+        self.before = {k: np.array(v).copy() for k, v in arrays.items()}
+
+    def modified(self):
+        return sorted(k for k, v in self.arrays.items()
+                      if v.shape != self.before[k].shape or v.dtype != self.before[k].dtype
+                      or not np.array_equal(v, self.before[k], equal_nan=(v.dtype.kind == "f")))
+
+
+def build_source(case):
+    import uxarray as ux
+    if "mpas" in case:
+        ds, supplied = mpas_dataset(case)
+        dual = case["mpas"]["mode"] == "dual"
+        arrays = {k: ds[k].values for k in ds.data_vars}          # the live arrays of the source
+        return SourceObject(lambda: ux.Grid.from_dataset(ds, use_dual=dual), arrays, supplied)
+    return build_grid(case, as_source=True)
+
+
+def build_grid(case, as_source=False):
     """the Grid of a case; supplied tables follow the Grid's own edge numbering"""
     import random
     import uxarray as ux
@@ -219,13 +334,20 @@ def build_grid(case):
             if not k.startswith("_"):
                 ds[k] = xr.DataArray(v.copy(), dims=["n_edge"])
     if conn == "supplied_both_via_from_topology" and prov != "xyz" and not (case["sup_end"] or case["sup_efd"]):
-        # the public constructor with the source's tables as keyword arguments
+        # the public constructor with the source's tables as keyword arguments (the SAME arrays every time)
         kw = {k: ds[k].values.copy() for k in ds.data_vars
               if k not in ("node_lon", "node_lat", "face_node_connectivity")}
-        g = ux.Grid.from_topology(lon.copy(), lat.copy(), table_of(case), fill_value=FILL, **kw)
+        a_lon, a_lat, a_tab = lon.copy(), lat.copy(), table_of(case)
+        arrays = dict(kw, node_lon=a_lon, node_lat=a_lat, face_node_connectivity=a_tab)
+        make = lambda: ux.Grid.from_topology(a_lon, a_lat, a_tab, fill_value=FILL, **kw)
     else:
-        g = ux.Grid(ds, source_grid_spec="UGRID")
-    return g, supplied
+        # Grid(ds) keeps the Dataset object it is given: every build gets its own Dataset around the
+        # SAME source arrays (shallow copy)
+        arrays = {k: ds[k].values for k in ds.data_vars}
+        make = lambda: ux.Grid(ds.copy(deep=False), source_grid_spec="UGRID")
+    if as_source:
+        return SourceObject(make, arrays, supplied)
+    return make(), supplied
 
 
 def data_array(case, g):
@@ -254,8 +376,14 @@ def run_impl(case):
     result of a data operation is recorded (copies), in order"""
     import itertools
     import uxarray as ux
-    g, supplied = build_grid(case)
-    out = {"g": g, "supplied": supplied}
+    so = build_source(case)
+    supplied = so.supplied
+    # first build: its tables and results now ...
+    g1 = so.make()
+    q1 = quick_quantities(case, g1)
+    # ... second build from the same source object: the grid the history runs on
+    g = so.make()
+    out = {"g": g, "supplied": supplied, "source": so, "g1": g1, "q1": q1}
     out["edge_nodes"] = np.asarray(g.edge_node_connectivity.values).copy()
     out["edge_faces"] = np.asarray(g.edge_face_connectivity.values).copy()
     out["n_edge"] = int(g.n_edge)
@@ -307,6 +435,9 @@ def run_impl(case):
             sl.append((idx, np.asarray(sub.difference(destination="edge").values),
                        np.asarray(sub.gradient(normalize=False).values) if case["kind"] == "face" else None))
         out["slices"] = sl
+    # the first grid again, after the second was built and used; the source object itself
+    out["q1_again"] = quick_quantities(case, g1)
+    out["source_modified"] = so.modified()
     # state after the history
     out["after"] = {
         "data": np.asarray(da.values).copy(), "data_dtype": str(da.dtype),
@@ -315,6 +446,21 @@ def run_impl(case):
         "supplied": {k: np.asarray(g._ds[k].values).copy() for k in supplied if not k.startswith("_")},
     }
     return out
+
+
+def quick_quantities(case, g):
+    """every C16 quantity of a grid, without any history"""
+    import uxarray as ux
+    q = {"edge_nodes": np.asarray(g.edge_node_connectivity.values).copy(),
+         "edge_faces": np.asarray(g.edge_face_connectivity.values).copy(),
+         "end": np.asarray(g.edge_node_distances.values, dtype=float).copy(),
+         "efd": np.asarray(g.edge_face_distances.values, dtype=float).copy()}
+    da, _ = data_array(case, g)
+    q["diff"] = np.asarray(da.difference(destination="edge").values).copy()
+    fda = da if case["kind"] == "face" else ux.UxDataArray(
+        np.arange(len(case["faces"]), dtype=float) * 1.5, dims=["n_face"], uxgrid=g, name="aux")
+    q["grad"] = np.asarray(fda.gradient(normalize=False).values).copy()
+    return q
 
 
 def rep(ck, case, clause, info, detail=""):
@@ -408,6 +554,23 @@ def spec_check(ck, case, o):
                 rep(ck, case, "table_changed_by_history", dict(base, quantity="edge_node_distances" if q == "end" else
                                                                "edge_face_distances", signature="other"),
                     {"first_read_at": o["reads"][q][0][0], "changed_at": pos, "history": hist[:pos]})
+                break
+    # one source, two grids: the second build must give what the first gave, must not disturb the
+    # first, and the source's own arrays must come out unchanged
+    if o.get("source_modified"):
+        rep(ck, case, "source_tables_modified", dict(base, quantity=",".join(o["source_modified"])[:80], signature="other"),
+            {"modified": o["source_modified"]})
+    if "q1" in o:
+        q1, q1b = o["q1"], o["q1_again"]
+        q2 = {"edge_nodes": en, "edge_faces": ef, "end": o["reads"]["end"][0][1], "efd": o["reads"]["efd"][0][1],
+              "diff": np.asarray(o["results"]["diff"][0].values)}
+        for k in ("edge_nodes", "edge_faces", "end", "efd", "diff", "grad"):
+            if not (q1[k].shape == q1b[k].shape and np.array_equal(q1[k], q1b[k], equal_nan=q1[k].dtype.kind == "f")):
+                rep(ck, case, "first_grid_changed_by_second_build", dict(base, quantity=k, signature="other"))
+                break
+        for k in ("edge_nodes", "edge_faces", "end", "efd", "diff"):
+            if not (q1[k].shape == q2[k].shape and np.array_equal(q1[k], q2[k], equal_nan=q1[k].dtype.kind == "f")):
+                rep(ck, case, "second_build_differs", dict(base, quantity=k, signature="other"))
                 break
     aft = o["after"]
     if aft["data_dtype"] != str(o["arr"].dtype) or not np.array_equal(aft["data"], o["arr"]):
@@ -666,7 +829,10 @@ def main(ck):
         "each read is checked, tables/data/connectivity/supplied tables must be unchanged, repeated calls must agree; "
         "edge_node_connectivity / edge_face_connectivity derived by the library or supplied by the source in non-canonical "
         "form (rows permuted, node pairs reversed, faces of interior edges swapped incl. face 0 second; through Grid(ds) and "
-        "Grid.from_topology keywords); data face- or node-centred, rank 1-3, dtypes float64/int64/float32/uint8, integer, "
+        "Grid.from_topology keywords) or as an MPAS-format dataset held in memory (int64 / int32 tables, padding 0 or repeated, "
+        "optional edgesOnCell/dvEdge/dcEdge, read as primal or — closed meshes — as dual); every case builds the Grid TWICE from "
+        "the same source object: the second grid runs the history, the first is re-examined afterwards, the source arrays are "
+        "compared before/after; data face- or node-centred, rank 1-3, dtypes float64/int64/float32/uint8, integer, "
         "real, dyadic or constant values; difference(), gradient(normalize=False/True), each also per leading slice; "
         "non-trivial = grid has >= 2 faces; distinct = distinct (mesh name, sizes, flags, data)")
     stats = {}
@@ -744,7 +910,8 @@ def main(ck):
                                     "gradient", "constant_field_difference", "constant_field_gradient", "normalized_unit_norm",
                                     "normalized_is_rescaling", "leading_dims_independent", "edge_dimensioned", "same_grid",
                                     "result_type", "shape", "table_changed_by_history", "data_changed_by_operation",
-                                    "connectivity_changed_by_operation", "supplied_table_changed", "result_depends_on_history"],
+                                    "connectivity_changed_by_operation", "supplied_table_changed", "result_depends_on_history",
+                                    "source_tables_modified", "first_grid_changed_by_second_build", "second_build_differs"],
         "partial": "float rounding is not modelled (exact Q / R statements; deviation validated with the tolerances above); "
                    "arccos is not evaluated in the extracted model: the model fixes WHICH coordinates every table entry is "
                    "computed from, the geodesic itself is evaluated by the 30-digit oracle",
